@@ -77,6 +77,11 @@ type C13Sc struct {
 	// discovery request travels under a version of the client's choosing, not one the server need support) | 1 the
 	// server's highest version | 2 always 1.0 | 3 always 1.4. What is negotiated is in the payload, not here
 	RespHdr int `json:"resp_hdr,omitempty"`
+	// Drops (scripted server, no enforced version): the server hangs up on the first Drops requests it reads instead
+	// of answering (a restarting server, a draining balancer), then behaves as configured. Up to three are absorbed
+	// by the client's transport; with more the dial may fail, but if it succeeds it has negotiated what the server
+	// advertises like any other dial (a server that hangs up has not said that it lacks discovery)
+	Drops int `json:"drops,omitempty"`
 }
 
 type C13Second struct {
@@ -116,6 +121,9 @@ func genC13(g *simrt.Tape, tier string) any {
 	if !sc.Real && g.Draw(3) == 0 {
 		sc.RespHdr = 1 + g.Draw(3)
 	}
+	if !sc.Real && !sc.Reconnect && sc.Enforce < 0 && g.Draw(5) == 0 {
+		sc.Drops = 1 + g.Draw(5)
+	}
 	sc.Chunk = []int{simnet.ChunkMax, simnet.ChunkRandom, simnet.ChunkByte}[g.Draw(3)]
 	if g.Draw(3) == 0 {
 		sc.StallPM = 100
@@ -140,6 +148,10 @@ func c13Grid(tier string) []*C13Sc {
 				out = append(out, &C13Sc{Client: c, Server: s, Beh: behPermuted, Order: o, Enforce: -1, FollowUp: true})
 				if o < 3 {
 					out = append(out, &C13Sc{Client: c, Server: s, Beh: behForeignMajor, Order: o, Enforce: -1, FollowUp: true})
+				}
+				if (c+s)%4 == o {
+					// the server hangs up on the first requests of the dial
+					out = append(out, &C13Sc{Client: c, Server: s, Beh: []int{behConformant, behUnsupported, behForeign}[(c+s)%3], Drops: 1 + (c+2*s+o)%5, Enforce: -1, FollowUp: true})
 				}
 				// the discovery reply travels under a header version of the server's choosing
 				out = append(out, &C13Sc{Client: c, Server: s, Beh: []int{behConformant, behUnsupported, behUnsupportedBare}[(c+s+o)%3], RespHdr: o, Enforce: -1, FollowUp: true})
@@ -234,6 +246,12 @@ func execC13(x *X, scAny any) {
 		csc.Behav = []ReqBehav{{}, {CloseAfter: true}, {}, {}, {}, {}, {}, {}}
 		if sc.Enforce >= 0 {
 			csc.Behav = []ReqBehav{{CloseAfter: true}, {}, {}, {}, {}, {}, {}, {}}
+		}
+	}
+	if sc.Drops > 0 && !sc.Reconnect && !sc.Real && sc.Enforce < 0 {
+		csc.Behav = make([]ReqBehav, sc.Drops+60)
+		for i := 0; i < sc.Drops; i++ {
+			csc.Behav[i].CloseBefore = true
 		}
 	}
 	w := newClientWorld(x, csc)
@@ -509,6 +527,9 @@ func execC13(x *X, scAny any) {
 		x.Reportf("C13.discovery-despite-enforced-version", "enforced", "%s: %d discovery request(s) on the wire although version %v is enforced", cell, discoveries, allVersions[sc.Enforce])
 	}
 	if dialErr != nil {
+		if sc.Drops > 3 && !sc.Reconnect && !sc.Real && sc.Enforce < 0 {
+			return // the server hung up more often than the transport re-sends: the dial may fail
+		}
 		if !exp.fail && exp.full {
 			x.Reportf("C13.dial-fails", fmt.Sprintf("expected-%v", exp.version), "%s: Dial failed with %q, the highest common version is %v", cell, dialErr, exp.version)
 		}
